@@ -15,6 +15,7 @@ from harness.common import cbytes, clist, cnat
 from harness.props import pyfun_util
 
 PID = "C13"
+KEY_CACHE = "decryptor-cache-keyed-by-key-only"
 M2S, S2M = 1, 2
 MASK = 0xE3
 EXC = {"IndexError": 1, "UnboundLocalError": 2, "ValueError": 3, "error": 4, "MissingCryptographicMaterial": 5}
@@ -552,6 +553,64 @@ def judge_roles(ctx, rng_cases, results):
                                expected=ka, observed=kb)
     return n
 
+
+# ----------------------------------------------------------------------------- several sessions on one decryptor
+def gen_multicaptures(ctx):
+    rng, out = ctx.rng, []
+
+    def session(key=None):
+        ltk, mat = rand_material(rng, 5)
+        return {"ltk": key or ltk, "mat": mat, "esi": {"rand": rng.getrandbits(64), "ediv": rng.getrandbits(16)}}
+
+    def pdus(si, n):
+        return [[si, rng.choice([M2S, S2M]), rand_pdu(rng, rng.choice([1, 2, 5, 9, 20, 27])).hex(), True] for _ in range(n)]
+
+    for i in range(48 if ctx.thorough else 12):
+        way = "direct" if i % 2 == 0 else "sniffer"
+        nses = 2 + (i // 2) % 2
+        sessions = [session() for _ in range(nses)]
+        events = []
+        kind = "successive"
+        if i % 6 == 4 and way == "direct":
+            # two live connections under different keys, PDUs interleaved (the decryptor has no notion of connection)
+            kind = "interleaved"
+            qs = [pdus(si, rng.randrange(3, 6)) for si in range(nses)]
+            while any(qs):
+                events.append(rng.choice([q for q in qs if q]).pop(0))
+        else:
+            for si in range(nses):
+                events += pdus(si, rng.randrange(2, 6))
+        keys = [x["ltk"] for x in sessions]
+        if i % 4 == 1:
+            keys = keys[::-1]                       # the later session's key is tried first
+        if i % 4 == 2:
+            keys = [rand_material(rng, 5)[0]] + keys  # an unrelated key is tried first
+        out.append({"kind": kind + "-" + way, "keys": keys, "way": way, "sessions": sessions, "events": events})
+    # reconnection of bonded devices: the SAME key with fresh SKD/IV (known finding class)
+    for way in ("direct", "sniffer"):
+        s1 = session()
+        s2 = session(key=s1["ltk"])
+        out.append({"kind": "same-key-new-material-" + way, "keys": [s1["ltk"]], "way": way, "sessions": [s1, s2],
+                    "events": pdus(0, 3) + pdus(1, 3)})
+    return out
+
+
+def judge_multicapture(ctx, c, res):
+    n = 0
+    case = {"op": "multicapture", **{k: c[k] for k in ("kind", "keys", "way", "sessions", "events")}}
+    if "exc" in res:
+        return ctx.violation("decryptor raised " + res["exc"] + " on a capture with several sessions", case)
+    for i, (o, want, si) in enumerate(zip(res["obs"], res["plain"], res["sid"])):
+        if not (o["k"] == 1 and o["d"] == want):
+            # class of the known finding: the session's key was already used by an EARLIER session with other material
+            me = c["sessions"][si]
+            reused = any(c["sessions"][j]["ltk"] == me["ltk"] and c["sessions"][j]["mat"] != me["mat"] for j in range(si))
+            n += ctx.violation("passive decryptor did not recover PDU #%d (session %d of %d, its key is known) of a capture with several sessions (%s)"
+                               % (i, si + 1, len(c["sessions"]), c["kind"]), dict(case, failing_pdu=i),
+                               key=KEY_CACHE if reused else None, expected=want, observed=o)
+            break
+    return n
+
 # ----------------------------------------------------------------------------- Coq terms
 def cdir(d):
     return "M2S" if d == M2S else "S2M"
@@ -812,6 +871,7 @@ def run(ctx):
     sweeps, pairs, links = gen_sweeps(ctx), gen_pairs(ctx), gen_links(ctx)
     captures = [w["case"] for w in corpus if w.get("op") == "capture"] + gen_captures(ctx)
     corpus_dec = [w["case"] for w in corpus if w.get("op") == "dec"]
+    multicaps = [w["case"] for w in corpus if w.get("op") == "multicapture"] + gen_multicaptures(ctx)
     stack_cases = [w["case"] for w in corpus if w.get("op") == "stack"] + gen_stack_cases(ctx)
     role_pairs = []
     for _ in range(40 if ctx.thorough else 8):
@@ -828,6 +888,7 @@ def run(ctx):
     r1 = C.run_impl("C13.py", {"mgr": [{"ltk": c["ltk"], "mat": c["mat"], "ops": c["ops"]} for c in mgr_cases],
                                "sweep": sweeps, "pair": [{k: p[k] for k in p if k != "what"} for p in pairs],
                                "link": links, "capture": captures,
+                               "multicapture": [{k: c[k] for k in ("keys", "way", "sessions", "events")} for c in multicaps],
                                "stack": [{"handles": c["handles"], "events": c["events"],
                                           "procs": [{k: p[k] for k in ("key", "skdm", "ivm", "skds", "ivs")} for p in c["procs"]]}
                                          for c in stack_cases]})
@@ -858,6 +919,8 @@ def run(ctx):
         nviol += judge_dec_raw(ctx, c, res)
     for c, res in zip(stack_cases, r1["stack"]):
         nviol += judge_stack(ctx, c, res)
+    for c, res in zip(multicaps, r1["multicapture"]):
+        nviol += judge_multicapture(ctx, c, res)
     rs = r1["stack"][n_plain_stack:]
     nviol += judge_roles(ctx, role_pairs, list(zip(rs[0::2], rs[1::2])))
     ctx.log("oracle: %d failing cases (%d replay files, %d more not written); %d single-bit corruptions swept on the implementation"
@@ -877,7 +940,8 @@ def run(ctx):
     pool = ThreadPoolExecutor(3)
     fut_m = pool.submit(C.run_cases, PID, "mgr", pre, "mgr_case", mgr_terms, "check_mgr", shard=per)
     dec_inputs = [(c["keys"], [c["mat"]], r["air"], r) for c, r in zip(captures, r1["capture"]) if "air" in r] + \
-                 [(c["keys"], c["mats"], c["pdus"], r) for c, r in zip(dec_raw, r2["dec"]) if "obs" in r]
+                 [(c["keys"], c["mats"], c["pdus"], r) for c, r in zip(dec_raw, r2["dec"]) if "obs" in r] + \
+                 [(c["keys"], [x["mat"] for x in c["sessions"]], r["air"], r) for c, r in zip(multicaps, r1["multicapture"]) if "air" in r]
     # balance the decryptor shards by cost (bytes to decrypt), heaviest first, round robin over 16 shards
     dorder = sorted(range(len(dec_inputs)), key=lambda i: -sum(len(x) for x in dec_inputs[i][2]))
     nsh = max(1, min(16, len(dorder)))
@@ -941,6 +1005,8 @@ def run(ctx):
         "links": len(links), "link_events": sum(len(l["events"]) for l in links),
         "captures": len(captures), "captured_pdus": sum(len(r.get("air", [])) for r in r1["capture"]),
         "decryptor_raw_streams": len(dec_raw),
+        "multi_session_captures": len(multicaps), "multi_session_kinds": {k: sum(1 for c in multicaps if c["kind"] == k) for k in sorted({c["kind"] for c in multicaps})},
+        "multi_session_pdus": sum(len(r.get("air", [])) for r in r1["multicapture"]),
         "captured_payload_lengths": sorted({len(e[1]) // 2 - 2 for c in captures for e in c["events"] if e[2]}),
         "captured_pdus_with_payload_ge_248": sum(1 for c in captures for e in c["events"] if e[2] and len(e[1]) // 2 - 2 >= 248),
         "stack_cases": len(stack_cases), "stack_case_kinds": stack_kinds, "stack_procedures": sum(len(c["procs"]) for c in stack_cases),
@@ -999,6 +1065,9 @@ def replay(payload):
     elif op == "capture":
         r = C.run_impl("C13.py", {"capture": [{k: case[k] for k in ("ltk", "mat", "keys", "events", "esi") if k in case}]})
         print("implementation now returns:", json.dumps(r["capture"][0])[:3000])
+    elif op == "multicapture":
+        r = C.run_impl("C13.py", {"multicapture": [{k: case[k] for k in ("keys", "way", "sessions", "events")}]})
+        print("implementation now returns:", json.dumps(r["multicapture"][0])[:3000])
     elif op == "stack":
         r = C.run_impl("C13.py", {"stack": [{"handles": case["handles"], "events": case["events"],
                                              "procs": [{k: p[k] for k in ("key", "skdm", "ivm", "skds", "ivs")} for p in case.get("procs", [])]}]})
